@@ -903,6 +903,10 @@ def c03_r4(ctx):
     names = ret[0][2]["kind"]["fields"]
     leaves_v = frozenset(f.vars_of_operand(ret[0][2]["ops"][names.index("leaves")]))
     nodes_v = frozenset(f.vars_of_operand(ret[0][2]["ops"][names.index("nodes")]))
+    if f.dominated_by_blocks(outer["header"], [ret[0][0]]):
+        # the pack is built first and wired in place (`pack.nodes[i].receivers.push(..)`): the two
+        # tables are fields of one variable, which this reader does not take apart
+        raise AnalysisError("idiom not recognised: %s builds the ChannelPack first and wires its fields in place" % f.id)
     def is_range_loop(lp):
         return bool(lp["iter"]) and all(o[0][0] == "agg" and o[0][4].endswith("Range::Range") for o in lp["iter"])
     if not is_range_loop(outer):
